@@ -30,7 +30,8 @@ theorem specU_succ {P : Prog} {rank : Nat → Nat} {f : Nat} (hacy : Acyclic P r
     obtain ⟨s3, fr3, hinvk, r3⟩ := invoke_inc hacy hF s id v R hinvB hinv.stackB hidB hfle hB hbig
     simp only [hinvk]
     have hev3 : Evolves (fun q => rank q.fn < rank id.fn ∨ q = id) s s3 :=
-      (r3.evolves.congr_left (s0 := s) rfl rfl rfl rfl).mono (fun q h => Or.inl h)
+      (Evolves.refl _ s).trans' (r3.evolves.mono (fun q h => Or.inl h)) rfl rfl rfl rfl [id] rfl
+        (fun m hm => by rw [List.mem_singleton.1 hm]; exact ⟨Or.inr rfl, Or.inl hl⟩)
     have hE : s3.epoch = s.epoch := hev3.epoch
     have hbig3 : BigN P s3.srcs s3.maps id v R := by rw [hev3.srcs, hev3.maps]; exact hbig
     have hmax : fr3.maxTu ≤ s3.epoch := by
@@ -46,7 +47,7 @@ theorem specU_succ {P : Prog} {rank : Nat → Nat} {f : Nat} (hacy : Acyclic P r
         rcases r3.exact d hd with ⟨d0, hd0, _⟩ | h
         · cases hd0
         · exact h)
-      hstamps hmax (by have := r3.order; simpa using this) hmax (fun rev hrev => by rw [hl] at hrev; cases hrev) rfl rfl rfl rfl hinv.stackB
+      hstamps hmax (by have := r3.order; simpa using this) hmax (fun rev hrev => by rw [hl] at hrev; cases hrev) rfl rfl rfl rfl rfl hinv.stackB
     refine ⟨_, true, fr3.maxTu, Rev.mk v fr3.maxTu s3.epoch fr3.rdeps.reverse, rfl, hinvF, hevF, rfl,
       alookup_ainsert_self _ _ _, rfl, hE, Nat.le_refl _, by rw [← hE]; exact hmax, ?_⟩
     intro r hr; cases hr
@@ -74,7 +75,7 @@ theorem specU_succ {P : Prog} {rank : Nat → Nat} {f : Nat} (hacy : Acyclic P r
         fun q hq => alookup_ainsert_ne _ _ _ _ (Ne.symm hq)
       have hev1 : Evolves (fun q => rank q.fn < rank id.fn ∨ q = id) s
           { s with derived := ainsert s.derived id (Rev.mk rev.val rev.tu s.epoch rev.deps) } := by
-        refine ⟨rfl, rfl, rfl, ?_, ?_⟩
+        refine ⟨rfl, rfl, rfl, ?_, ?_, ⟨[], rfl, fun _ h => by cases h⟩⟩
         · intro q r hq
           by_cases hqi : q = id
           · subst hqi; rw [hl] at hq; cases hq
@@ -181,9 +182,14 @@ theorem specU_succ {P : Prog} {rank : Nat → Nat} {f : Nat} (hacy : Acyclic P r
         obtain ⟨s3, fr3, hinvk, r3⟩ := invoke_inc hacy hF s2 id v R hinv2
           (fun fr hfr => hinv.stackB fr (by rw [← hstack2]; exact hfr)) hidB hfle hB hbig2
         simp only [hinvk]
-        have hev23 : Evolves (fun q => rank q.fn < rank id.fn ∨ q = id) s2 s3 :=
-          (r3.evolves.congr_left (s0 := s2) rfl rfl rfl rfl).mono (fun q h => Or.inl h)
-        have hev3 : Evolves (fun q => rank q.fn < rank id.fn ∨ q = id) s s3 := hev12.trans hev23
+        have hev23 : Evolves (fun q => rank q.fn < rank id.fn ∨ q = id)
+            { s2 with stack := ⟨id, [], 1⟩ :: s2.stack, runs := bump s2.runs id.fn, log := id :: s2.log, events := (false, id) :: s2.events } s3 :=
+          r3.evolves.mono (fun q h => Or.inl h)
+        have hev3 : Evolves (fun q => rank q.fn < rank id.fn ∨ q = id) s s3 :=
+          hev12.trans' hev23 rfl rfl rfl rfl [id] rfl (fun m hm => by
+            rw [List.mem_singleton.1 hm]
+            obtain ⟨d, hd, hc⟩ := hch
+            exact ⟨Or.inr rfl, Or.inr ⟨rev, d, s2, hl, hlt, hd, hev12.moves, hc⟩⟩)
         have hE : s3.epoch = s.epoch := hev3.epoch
         have hbig3 : BigN P s3.srcs s3.maps id v R := by rw [hev3.srcs, hev3.maps]; exact hbig
         have hl3 : alookup s3.derived id = some (Rev.mk rev.val rev.tu s.epoch rev.deps) := by
@@ -232,7 +238,7 @@ theorem specU_succ {P : Prog} {rank : Nat → Nat} {f : Nat} (hacy : Acyclic P r
             { s3 with stack := s2.stack, events := (true, id) :: s3.events,
                       derived := ainsert s3.derived id (Rev.mk v fr3.maxTu s3.epoch fr3.rdeps.reverse) }
             id v R fr3 fr3.maxTu hinv hidB hev3 r3.inv hbig3 r3.reads hexact hstamps hmax (by have := r3.order; simpa using this) hmax
-            (fun r hr => by rw [hl] at hr; cases hr; exact ⟨hlt, Or.inr ⟨hdne, hC, fun e => hval e.symm⟩⟩) rfl rfl rfl rfl
+            (fun r hr => by rw [hl] at hr; cases hr; exact ⟨hlt, Or.inr ⟨hdne, hC, fun e => hval e.symm⟩⟩) rfl rfl rfl rfl rfl
             (fun fr hfr => hinv.stackB fr (by rw [← hstack2]; exact hfr))
           refine ⟨_, true, fr3.maxTu, Rev.mk v fr3.maxTu s3.epoch fr3.rdeps.reverse, ?_, hinvF, hevF, hstack2,
             alookup_ainsert_self _ _ _, rfl, hE, Nat.le_refl _, by rw [← hE]; exact hmax, ?_⟩
@@ -253,7 +259,7 @@ theorem specU_succ {P : Prog} {rank : Nat → Nat} {f : Nat} (hacy : Acyclic P r
                       derived := ainsert s3.derived id (Rev.mk v rev.tu s3.epoch fr3.rdeps.reverse) }
             id v R fr3 rev.tu hinv hidB hev3 r3.inv hbig3 r3.reads hexact hstamps
             (by rw [hE]; exact Nat.le_trans hok.tu_tv hok.tv_le) (by have := r3.order; simpa using this) hmax
-            (fun r hr => by rw [hl] at hr; cases hr; exact ⟨hlt, Or.inl ⟨hv.symm, rfl⟩⟩) rfl rfl rfl rfl
+            (fun r hr => by rw [hl] at hr; cases hr; exact ⟨hlt, Or.inl ⟨hv.symm, rfl⟩⟩) rfl rfl rfl rfl rfl
             (fun fr hfr => hinv.stackB fr (by rw [← hstack2]; exact hfr))
           refine ⟨_, false, fr3.maxTu, Rev.mk v rev.tu s3.epoch fr3.rdeps.reverse, ?_, hinvF, hevF, hstack2,
             alookup_ainsert_self _ _ _, rfl, hE, hR, by rw [← hE]; exact hmax, ?_⟩
